@@ -23,16 +23,16 @@
 (***************************************************************************)
 EXTENDS LogFiles, Json, IOUtils, TLCExt, SequencesExt
 Rec == ndJsonDeserialize(IOEnv.TRACE)
-VARIABLES l, bad, skipping, nvalid, sok, poss, big
-tvars == <<l, bad, skipping, nvalid, sok, poss, big>>
+VARIABLES l, bad, skipping, nvalid, sok, poss, big, crashes
+tvars == <<l, bad, skipping, nvalid, sok, poss, big, crashes>>
 E == Rec[l]
 Slack == 50      \* ms: guard band around the age test (monotonic vs wall clock, scheduling)
 
-TInit == l = 1 /\ bad = {} /\ skipping = FALSE /\ nvalid = 0 /\ sok = FALSE /\ poss = {} /\ big = 0
+TInit == l = 1 /\ bad = {} /\ skipping = FALSE /\ nvalid = 0 /\ sok = FALSE /\ poss = {} /\ big = 0 /\ crashes = 0
 Fail(why) == /\ bad' = bad \cup {<<E.sid, l, why>>} /\ skipping' = TRUE /\ sok' = FALSE
-             /\ UNCHANGED <<nvalid, poss, big>>
+             /\ UNCHANGED <<nvalid, poss, big, crashes>>
 Count == IF sok THEN nvalid + 1 ELSE nvalid
-TReset == /\ E.ev = "Reset" /\ skipping' = FALSE /\ sok' = TRUE /\ nvalid' = Count /\ poss' = {} /\ big' = 0
+TReset == /\ E.ev = "Reset" /\ skipping' = FALSE /\ sok' = TRUE /\ nvalid' = Count /\ poss' = {} /\ big' = 0 /\ crashes' = 0
           /\ UNCHANGED bad
 
 \* ---- what the harness can see of a file, and the same view of a specification file
@@ -42,8 +42,11 @@ Proj(f) == [len |-> f.len, own |-> f.own, lines |-> IF f.own THEN f.lines ELSE 0
 Seen(o) == [len |-> o.len, own |-> o.own, lines |-> o.lines, first |-> o.first, last |-> o.last]
 BagOf(q) == [x \in ToSet(q) |-> Cardinality({i \in DOMAIN q : q[i] = x})]
 SameDir(files, obs) == BagOf([i \in DOMAIN files |-> Proj(files[i])]) = BagOf([i \in DOMAIN obs |-> Seen(obs[i])])
-\* every file of this log holds whole lines, in order, without a gap inside the file
-Lexical(obs) == \A i \in DOMAIN obs : obs[i].own => (obs[i].whole /\ obs[i].contig)
+\* every file of this log holds whole lines, in order, without a gap inside the file; only a file that was being written
+\* when its writer was KILLED may end in a cut line (at most one per kill)
+Torn(obs) == {i \in DOMAIN obs : obs[i].own /\ obs[i].torn}
+Lexical(obs) == /\ \A i \in DOMAIN obs : obs[i].own => ((obs[i].whole \/ obs[i].torn) /\ obs[i].contig)
+                /\ Cardinality(Torn(obs)) <= crashes
 ObsBytes(obs) == LET RECURSIVE S(_) S(q) == IF q = <<>> THEN 0 ELSE Head(q).len + S(Tail(q)) IN S(obs)
 
 \* ---- Start: adopt the directory the harness found (ids in mtime order, oldest first), then StartW
@@ -62,9 +65,9 @@ TStart ==
   /\ E.ev = "Start" /\ ~skipping
   /\ LET old == SelectSeq(E.dir, LAMBDA o : ~o.new)       \* files left behind while the writer was down are marked
          prior == {p \in poss : SameDir(p.s.files, old)}
-         s1 == StartW(Adopt(E.dir, SeqNoOf(poss), E.w, E.k, E.keepAge),
-                      Adopt(E.dir, SeqNoOf(poss), E.w, E.k, E.keepAge).files, 0, E.startLen)
-     IN IF poss # {} /\ prior = {} THEN Fail(<<"the directory changed while the writer was stopped", E.dir>>)
+         seq0 == IF E.afterCrash THEN E.seq0 ELSE SeqNoOf(poss)
+         s1 == StartW(Adopt(E.dir, seq0, E.w, E.k, E.keepAge), Adopt(E.dir, seq0, E.w, E.k, E.keepAge).files, 0, E.startLen)
+     IN IF ~E.afterCrash /\ poss # {} /\ prior = {} THEN Fail(<<"the directory changed while the writer was stopped", E.dir>>)
         ELSE IF ~E.ok THEN Fail(<<"start_writer_thread failed", E.err>>)
         ELSE IF s1.crashed THEN Fail(<<"specification: start-up cannot complete">>)
         ELSE IF ~SameDir(s1.files, E.files)
@@ -73,7 +76,29 @@ TStart ==
         ELSE IF ObsBytes(E.files) > E.k + E.startLen
         THEN Fail(<<"total size exceeds keep by more than one event after start", ObsBytes(E.files), E.k>>)
         ELSE /\ poss' = {Wrap(s1, E.t0, E.t1)} /\ big' = Max2(big, E.startLen)
-             /\ UNCHANGED <<bad, skipping, nvalid, sok>>
+             /\ UNCHANGED <<bad, skipping, nvalid, sok, crashes>>
+
+(* ---- Crash: the writer's process was killed at an arbitrary instant.  Every clause that holds "at every   *)
+(* moment" must hold of the directory found: bounded total size, bounded files, whole lines except for the  *)
+(* one line that was being written, consecutive numbers inside and across the files that hold events.       *)
+CrashRanges(obs) == LET o == SelectSeq(obs, LAMBDA f : f.own /\ f.last > 0) IN
+                    /\ \A i \in 1..(Len(o) - 1) : o[i].last + 1 = o[i + 1].first
+                    /\ \A i \in 1..Len(o) : o[i].first <= o[i].last
+TCrash ==
+  /\ E.ev = "Crash" /\ ~skipping
+  /\ LET obs == E.files
+         own == SelectSeq(obs, LAMBDA f : f.own)
+         newest == IF own = <<>> THEN 0 ELSE Len(own) IN          \* the listing is ordered by the time of the last line
+     IF \E i \in 1..Len(own) : ~own[i].contig THEN Fail(<<"after a kill: numbers out of order inside a file", obs>>)
+     ELSE IF \E i \in 1..Len(own) : own[i].torn /\ i # newest /\ Cardinality({j \in 1..Len(own) : own[j].torn}) > crashes + 1
+          THEN Fail(<<"after a kill: more cut lines than kills", obs>>)
+     ELSE IF \E i \in 1..Len(own) : ~own[i].whole /\ ~own[i].torn THEN Fail(<<"after a kill: a broken line inside a file", obs>>)
+     ELSE IF ~CrashRanges(obs) THEN Fail(<<"after a kill: a gap or a duplicate across files", obs>>)
+     ELSE IF own # <<>> /\ E.maxSeq >= E.first /\ own[Len(own)].last > 0 /\ \E i \in 1..Len(own) : own[i].last > E.maxSeq THEN Fail(<<"maxSeq">>)
+     ELSE IF ObsBytes(obs) > E.k + E.maxEvent THEN Fail(<<"after a kill: total size exceeds keep by more than one event", ObsBytes(obs), E.k>>)
+     ELSE IF \E i \in 1..Len(own) : own[i].len > E.w + E.maxEvent THEN Fail(<<"after a kill: a file exceeds the size limit by more than one event", obs>>)
+     ELSE /\ crashes' = crashes + 1 /\ poss' = {} /\ big' = Max2(big, E.maxEvent)
+          /\ UNCHANGED <<bad, skipping, nvalid, sok>>
 
 \* ---- Batch: every event is one iteration of the loop in every state the writer may be in
 AgeChoices(p, wa) == IF E.t0 - p.cHi > wa + Slack THEN {TRUE}
@@ -99,11 +124,11 @@ TBatch ==
         ELSE IF \E p \in fit : ~Good(p.s) THEN Fail(<<"specification state violates a clause", E.upto>>)
         ELSE IF ObsBytes(E.files) > (CHOOSE p \in fit : TRUE).s.keep + b2
         THEN Fail(<<"total size exceeds keep by more than one event", ObsBytes(E.files)>>)
-        ELSE /\ poss' = fit /\ big' = b2 /\ UNCHANGED <<bad, skipping, nvalid, sok>>
+        ELSE /\ poss' = fit /\ big' = b2 /\ UNCHANGED <<bad, skipping, nvalid, sok, crashes>>
 
-TStop == E.ev = "Stop" /\ ~skipping /\ UNCHANGED <<bad, skipping, nvalid, sok, poss, big>>
+TStop == E.ev = "Stop" /\ ~skipping /\ UNCHANGED <<bad, skipping, nvalid, sok, poss, big, crashes>>
 TInconclusive == E.ev = "Inconclusive" /\ ~skipping /\ skipping' = TRUE /\ sok' = FALSE
-                 /\ UNCHANGED <<bad, nvalid, poss, big>>
+                 /\ UNCHANGED <<bad, nvalid, poss, big, crashes>>
 
 \* ---- PrefixFileSet driven directly (fileset-ops): poss is a singleton {Wrap(s, 0, 0)}
 TheS == (CHOOSE p \in poss : TRUE).s
@@ -112,7 +137,7 @@ FsResult(n, crashedExpected) ==
   ELSE IF E.panic # crashedExpected THEN Fail(<<E.ev, "panic", E.panic, "expected", crashedExpected>>)
   ELSE IF ~SameDir(n.files, E.files)
   THEN Fail(<<E.ev, "expected", [i \in DOMAIN n.files |-> Proj(n.files[i])], "got", E.files>>)
-  ELSE poss' = {Wrap(n, 0, 0)} /\ UNCHANGED <<bad, skipping, nvalid, sok, big>>
+  ELSE poss' = {Wrap(n, 0, 0)} /\ UNCHANGED <<bad, skipping, nvalid, sok, big, crashes>>
 TFsNew == /\ E.ev = "FsNew" /\ ~skipping
           /\ LET a == Adopt(E.dir, 0, 0, 0, 0) IN FsResult([ScanW(a, a.files) EXCEPT !.cur = 0], FALSE)
 \* the pushed file exists on disk (the harness created it); the set learns about it
@@ -129,9 +154,9 @@ TFsOlder == /\ E.ev = "FsDeleteOlderThan" /\ ~skipping
 TFsTrim == /\ E.ev = "FsTrimTo" /\ ~skipping
            /\ LET n == SizeTrimW(TheS, E.max) IN FsResult([n EXCEPT !.crashed = FALSE], n.crashed)
 
-TSkip == E.ev # "Reset" /\ skipping /\ UNCHANGED <<bad, skipping, nvalid, sok, poss, big>>
+TSkip == E.ev # "Reset" /\ skipping /\ UNCHANGED <<bad, skipping, nvalid, sok, poss, big, crashes>>
 TNext == l <= Len(Rec) /\ l' = l + 1
-         /\ (TReset \/ TStart \/ TBatch \/ TStop \/ TInconclusive \/ TFsNew \/ TFsPush \/ TFsDeleteOldest \/ TFsOlder
+         /\ (TReset \/ TStart \/ TCrash \/ TBatch \/ TStop \/ TInconclusive \/ TFsNew \/ TFsPush \/ TFsDeleteOldest \/ TFsOlder
              \/ TFsTrim \/ TSkip)
 TSpec == TInit /\ [][TNext]_tvars
 Report == IF l = Len(Rec) + 1
